@@ -39,7 +39,9 @@ var LitVals = []cty.Value{cty.NilVal, cty.NumberIntVal(7), cty.StringVal("dflt")
 var wrapFunc = function.New(&function.Spec{
 	Params: []function.Parameter{{Name: "v", Type: cty.DynamicPseudoType, AllowNull: true, AllowUnknown: true, AllowDynamicType: true, AllowMarked: true}},
 	Type:   func(args []cty.Value) (cty.Type, error) { return cty.Tuple([]cty.Type{args[0].Type()}), nil },
-	Impl:   func(args []cty.Value, retType cty.Type) (cty.Value, error) { return cty.TupleVal([]cty.Value{args[0]}), nil },
+	Impl: func(args []cty.Value, retType cty.Type) (cty.Value, error) {
+		return cty.TupleVal([]cty.Value{args[0]}), nil
+	},
 })
 
 func labelNames(n int) []string { return []string{"k1", "k2", "k3", "k4"}[:n] }
@@ -210,6 +212,7 @@ func jsonExpr(n *e1.Node) string {
 //	1: blocks of one type grouped as an array of bodies under one property
 //	2: like 1, and the whole body as an array of single-property objects
 //	3: labelled blocks merged into one nested label object per type, plus "//" comment properties
+//	4: like 0 (source order kept), the top-level body as an array of single-property objects
 func JSON(items []Item, variant int) string { return jsonBody(items, variant, true) }
 
 func jsonBody(items []Item, variant int, top bool) string {
@@ -222,13 +225,19 @@ func jsonBody(items []Item, variant int, top bool) string {
 	}
 	var props []string
 	switch variant {
-	case 0:
+	case 0, 4:
 		for _, it := range items {
 			if it.K == "attr" {
 				props = append(props, fmt.Sprintf("%q: %s", it.Name, jsonExpr(it.Val)))
 			} else {
 				props = append(props, fmt.Sprintf("%q: %s", it.Name, blockBody(it)))
 			}
+		}
+		if variant == 4 && top {
+			for i := range props {
+				props[i] = "{" + props[i] + "}"
+			}
+			return "[" + strings.Join(props, ", ") + "]"
 		}
 	case 1, 2:
 		done := map[string]bool{}
